@@ -182,9 +182,10 @@ fn near_misses<T>() -> Vec<&'static str> {
         "alloc::string::String" => vec!["1", "null", "[\"a\"]", "true"],
         "f64" => vec!["\"1.5\"", "\"42\"", "\"1e3\"", "\"nan\"", "\"inf\"", "\"infinity\"", "\"-inf\"", "\" NaN\"", "true", "null", "[1.5]"],
         "core::option::Option<alloc::string::String>" => vec!["1", "[\"x\"]", "false"],
-        "alloc::vec::Vec<i32>" => vec!["[\"1\"]", "[1.5]", "[null]", "{}", "1", "[[1]]", "[2147483648]"],
-        n if n.contains("BTreeSet<alloc::string::String>") => vec!["[1]", "[null]", "{}", "\"a\""],
-        n if n.contains("BTreeMap<alloc::string::String, i32>") => vec!["{\"a\":\"1\"}", "{\"a\":1.5}", "[]", "{\"a\":null}"],
+        // (`null` is not a collection: only a 204 stands for the empty one)
+        "alloc::vec::Vec<i32>" => vec!["[\"1\"]", "[1.5]", "[null]", "{}", "1", "[[1]]", "[2147483648]", "null", " null ", "\"\"", "false", "0"],
+        n if n.contains("BTreeSet<alloc::string::String>") => vec!["[1]", "[null]", "{}", "\"a\"", "null", "\"\"", "false"],
+        n if n.contains("BTreeMap<alloc::string::String, i32>") => vec!["{\"a\":\"1\"}", "{\"a\":1.5}", "[]", "{\"a\":null}", "null", "\"\"", "false", "0"],
         _ => vec![],
     }
 }
@@ -408,9 +409,22 @@ where
             run_value::<T>(r, class, 200, Ct::Json, &s);
         }
     }
-    for body in long_bodies() {
+    for (i, body) in long_bodies().into_iter().enumerate() {
         r.states += 1;
         run_value::<T>(r, class, 200, Ct::Json, &script::default_script(&body));
+        // the error paths of a wrong / missing Content-Type see the same bodies (also raw
+        // bytes that are not UTF-8 around the same offset)
+        if i % 3 == 0 {
+            let mut raw = body.clone();
+            raw[255] = 0xff;
+            for ct in ALL_CT {
+                for b in [&body, &raw] {
+                    r.states += 1;
+                    run_value::<T>(r, class, 200, ct, &script::default_script(b));
+                    run_value::<T>(r, class, 200, ct, &uniform(b, 100));
+                }
+            }
+        }
     }
 }
 
@@ -425,9 +439,19 @@ where
             run_default::<T>(r, class, 200, Ct::Json, &s);
         }
     }
-    for body in long_bodies() {
+    for (i, body) in long_bodies().into_iter().enumerate() {
         r.states += 1;
         run_default::<T>(r, class, 200, Ct::Json, &script::default_script(&body));
+        if i % 3 == 0 {
+            let mut raw = body.clone();
+            raw[255] = 0xff;
+            for ct in ALL_CT {
+                for b in [&body, &raw] {
+                    r.states += 1;
+                    run_default::<T>(r, class, 200, ct, &script::default_script(b));
+                }
+            }
+        }
     }
 }
 
@@ -502,6 +526,13 @@ pub fn run(args: &Args) -> Report {
                         run_binary(r, status, Ct::OctetStream, &s);
                         run_binary(r, status, Ct::Json, &s);
                     }
+                }
+            }
+            for body in long_bodies().into_iter().step_by(3) {
+                for ct in ALL_CT {
+                    r.states += 1;
+                    run_unit(r, 200, ct, &script::default_script(&body));
+                    run_binary(r, 200, ct, &script::default_script(&body));
                 }
             }
         }),
